@@ -210,10 +210,11 @@ impl CoordTrait for PointZ {
     type T = f64;
 
     fn dim(&self) -> geo_traits::Dimensions {
-        if self.m <= NO_DATA {
-            geo_traits::Dimensions::Xyz
-        } else {
+        // same test as `nth_or_panic(3)`: a NaN measure is not a fourth dimension
+        if self.m > NO_DATA {
             geo_traits::Dimensions::Xyzm
+        } else {
+            geo_traits::Dimensions::Xyz
         }
     }
 
@@ -246,10 +247,11 @@ impl CoordTrait for &PointZ {
     type T = f64;
 
     fn dim(&self) -> geo_traits::Dimensions {
-        if self.m <= NO_DATA {
-            geo_traits::Dimensions::Xyz
-        } else {
+        // same test as `nth_or_panic(3)`: a NaN measure is not a fourth dimension
+        if self.m > NO_DATA {
             geo_traits::Dimensions::Xyzm
+        } else {
+            geo_traits::Dimensions::Xyz
         }
     }
 
@@ -286,10 +288,11 @@ impl PointTrait for PointZ {
         Self: 'a;
 
     fn dim(&self) -> geo_traits::Dimensions {
-        if self.m <= NO_DATA {
-            geo_traits::Dimensions::Xyz
-        } else {
+        // same test as `nth_or_panic(3)`: a NaN measure is not a fourth dimension
+        if self.m > NO_DATA {
             geo_traits::Dimensions::Xyzm
+        } else {
+            geo_traits::Dimensions::Xyz
         }
     }
 
@@ -306,10 +309,11 @@ impl PointTrait for &PointZ {
         Self: 'a;
 
     fn dim(&self) -> geo_traits::Dimensions {
-        if self.m <= NO_DATA {
-            geo_traits::Dimensions::Xyz
-        } else {
+        // same test as `nth_or_panic(3)`: a NaN measure is not a fourth dimension
+        if self.m > NO_DATA {
             geo_traits::Dimensions::Xyzm
+        } else {
+            geo_traits::Dimensions::Xyz
         }
     }
 
